@@ -100,7 +100,7 @@ def run(F, S, R, tier):
                 R.bad("mustcall/fail-cleanup/mark-invalid/status", "failed block is marked with a status other than BLOCK_INVALID", [c.where()])
         K.mustcall(R, "mustcall/always", cu, [r"dashmap::set::DashSet::<.*>::remove$"], S, allow_err_exits=False, what="the pending-verify mark is always cleared")
         # callback: invoked whenever present, with the verification result, after the pending mark is cleared
-        cb = K.enum_arms(cu, "core::option::Option", [r"field:.*UnverifiedBlock\.verify_callback|var:verify_callback"])
+        cb = K.enum_arms(cu, "core::option::Option", [r"field:.*UnverifiedBlock\.verify_callback"])
         calls = [c for c in cu.calls if c.callee.endswith("FnOnce::call_once")]
         if not cb or not calls:
             R.bad("mustcall/callback/anchor-lost", "callback invocation not found", [cu.where()])
